@@ -21,6 +21,13 @@ type JobHandler func(payload json.RawMessage) (any, error)
 
 var handlers = map[string]JobHandler{}
 
+var restartRequested bool
+
+// RequestWorkerRestart is called by a job handler (inside a worker process) whose job left
+// goroutines or global state behind (e.g. a deliberately deadlocked runtime): the pool replaces the
+// worker process after the current job's result has been delivered.
+func RequestWorkerRestart() { restartRequested = true }
+
 // RegisterJob registers a job kind executed inside worker processes.
 func RegisterJob(kind string, h JobHandler) {
 	if _, dup := handlers[kind]; dup {
@@ -46,6 +53,7 @@ type wireResult struct {
 	Result json.RawMessage `json:"result,omitempty"`
 	Err    string          `json:"err,omitempty"`
 	Panic  string          `json:"panic,omitempty"` // Go panic recovered by the worker loop itself
+	Restart bool           `json:"restart,omitempty"` // the handler left the process in a state that must not be reused
 }
 
 // JobResult is what the driver gets back for one job.
@@ -56,6 +64,7 @@ type JobResult struct {
 	Crashed bool            // the worker process died while running this job
 	CrashLog string         // tail of the worker's stderr/stdout when it died
 	Timeout bool            // killed after the job's timeout
+	Restart bool            // the worker asked to be replaced after this job
 }
 
 func (r *JobResult) Decode(v any) error { return json.Unmarshal(r.Result, v) }
@@ -78,6 +87,7 @@ func WorkerMain() {
 				os.Exit(3)
 			}
 			res := runJob(&j)
+			res.Restart = restartRequested
 			b, _ := json.Marshal(res)
 			w.Write(b)
 			w.WriteByte('\n')
@@ -216,7 +226,7 @@ func (p *Pool) Map(jobs []Job, progress func(done int)) []JobResult {
 					}
 				}
 				results[i] = p.runOne(w, i, &jobs[i])
-				if results[i].Crashed || results[i].Timeout {
+				if results[i].Crashed || results[i].Timeout || results[i].Restart {
 					w.kill()
 					w = nil
 				}
@@ -269,7 +279,7 @@ func (p *Pool) runOne(w *worker, seq int, j *Job) JobResult {
 		if e := json.Unmarshal(r.line, &wr); e != nil {
 			return JobResult{Err: "bad worker result: " + e.Error()}
 		}
-		return JobResult{Result: wr.Result, Err: wr.Err, Panic: wr.Panic}
+		return JobResult{Result: wr.Result, Err: wr.Err, Panic: wr.Panic, Restart: wr.Restart}
 	case <-time.After(timeout):
 		return JobResult{Timeout: true, CrashLog: w.logTail()}
 	}
